@@ -239,6 +239,17 @@ func init() {
 				t.send(buildFrame(hdrSpec{id: 0x0801, serial: t.nextSerial(), frag: 1, total: 4, no: no, phone: phone, body: b}))
 				time.Sleep(2 * time.Millisecond)
 			}
+			if c > 0 {
+				// the terminal starts the transfer again: package 1 with a new serial number (and other bytes); the first package 1,
+				// already handed to the join callback, keeps the serial number and bytes it was delivered with
+				b := make([]byte, 24)
+				for k := range b {
+					b[k] = byte(0x90 + k)
+				}
+				t.send(buildFrame(hdrSpec{id: 0x0801, serial: t.nextSerial(), frag: 1, total: 4, no: 1, phone: phone, body: b}))
+				time.Sleep(5 * time.Millisecond)
+				kp.recheck(l, t.idx, "after-package-1-again")
+			}
 			time.Sleep(10 * time.Millisecond)
 			t.close(c%2 == 0)
 			time.Sleep(60 * time.Millisecond)
